@@ -138,19 +138,15 @@ def num_record_fails(rec, tol=NUM_TOL):
 
 
 def z3_check(s, timeout_ms):
-    """s.check() with the soft timeout and an interrupt watchdog (nlsat may ignore 'timeout')."""
-    import z3, threading
+    """s.check() under z3's own timeout.  (No interrupt thread: ctx.interrupt() from a timer raced with
+    later API calls and corrupted the context under load; a stuck query is ended by the per-instance
+    hard timeout of run_instances instead.)"""
+    import z3
     s.set("timeout", int(timeout_ms))
-    t = threading.Timer(timeout_ms / 1000.0 + 3.0, lambda: s.ctx.interrupt())
-    t.daemon = True
-    t.start()
     try:
-        r = s.check()
+        return str(s.check())
     except z3.Z3Exception:
         return "unknown"
-    finally:
-        t.cancel()
-    return str(r)
 
 
 def cvc5_binary_check(smt2, timeout_s):
